@@ -58,6 +58,7 @@ class SpecEnv:
         if parent is not None:       # nested scopes (quantifiers, spec-function bodies) keep the old()-resolution of their parent
             if hasattr(parent, 'binds_old'): self.binds_old = parent.binds_old
             if getattr(parent, 'call_site', False): self.call_site = True
+            if getattr(parent, 'assume_mode', False): self.assume_mode = True
 
 class SpecMixin:
     # sev: evaluate spec expression to a value in the shared value domain
@@ -90,10 +91,14 @@ class SpecMixin:
                 if z3.is_false(z3.simplify(lhs)):
                     return z3.BoolVal(True)
                 try:
+                    if getattr(env, 'assume_mode', False):
+                        return z3.Implies(lhs, self.sev_assume(env, e[3]))
                     return z3.Implies(lhs, self.sev(env, e[3]))
                 except Unsupported as ex:
-                    if 'unknown name' in str(ex):      # consequent names a local that does not exist on this path:
-                        return z3.Not(lhs)              # the implication holds only vacuously
+                    if 'unknown name' in str(ex):      # consequent names a local that does not exist on this path / for this caller
+                        if getattr(env, 'assume_mode', False):
+                            return z3.BoolVal(True)     # as an assumption (callee contract at a call site) the clause says nothing
+                        return z3.Not(lhs)              # as a goal the implication can hold only vacuously
                     raise
             if op == '<==>':
                 return self.sev(env, e[2]) == self.sev(env, e[3])
@@ -238,6 +243,20 @@ class SpecMixin:
         if isinstance(x, SliceV) and name in ('off', 'len', 'cap'):
             return getattr(x, name)
         raise Unsupported('spec: selector .%s on %r' % (name, x))
+
+    def sev_assume(self, env, e):
+        # a clause used as an ASSUMPTION (callee contract at a call site), at positive polarity: conjuncts that name
+        # something the caller cannot see (a local of the callee) are dropped one by one -- weaker, hence sound
+        if e[0] == 'bin' and e[1] == '&&':
+            return z3.And(self.sev_assume(env, e[2]), self.sev_assume(env, e[3]))
+        if e[0] == 'paren' :
+            return self.sev_assume(env, e[1])
+        try:
+            return self.sev(env, e)
+        except Unsupported as ex:
+            if 'unknown name' in str(ex):
+                return z3.BoolVal(True)
+            raise
 
     def spec_call(self, env, e):
         fn, args = e[1], e[2]
@@ -463,7 +482,7 @@ class SpecMixin:
             binds = {pn: v for (pn, pt), v in zip(p['params'], argv)}
             for k, v in env.binds.items():
                 if k.startswith('$'): binds[k] = v
-            env2 = SpecEnv(env.st, binds, env.old, env.results)
+            env2 = SpecEnv(env.st, binds, env.old, env.results, parent=env)
             return self.sev(env2, p['body'].expr)
         f = self.pure_decl(name)
         flat = []
@@ -517,7 +536,7 @@ class SpecMixin:
         st.ghost[('gheap', g)] = z3.Store(st.ghost[('gheap', g)], self.refof(x), t)
 
     def sev_bool(self, env, e):
-        v = self.sev(env, e)
+        v = self.sev_assume(env, e) if getattr(env, 'assume_mode', False) else self.sev(env, e)
         if not (isinstance(v, z3.ExprRef) and z3.is_bool(v)):
             raise Unsupported('spec expression is not boolean: %r' % (e,))
         return v
